@@ -9,8 +9,7 @@
                    (after the literal has been read and parsed)
       op_uidcopy   internal/server/uid/uid.go            handleUIDCopy
       op_copy      internal/server/message/message.go    HandleCopy  (called with
-                   [sequence-set; mailbox] — NB connection.go passes the tag as
-                   well, so plain COPY is unreachable through the dispatcher, F1)
+                   [sequence-set; mailbox])
       op_uidstore  internal/server/uid/uid.go            handleUIDStore, with
                    message.MoveMessageToMailbox (Junk -> "Spam", NonJunk -> "INBOX")
                    and message.CalculateNewFlags
@@ -24,6 +23,12 @@
     [sel] is the session's SelectedMailboxID (a row id: it may dangle, or denote
     a NEW mailbox after the old one was deleted and the rowid reused).
     Result: only the class of the tagged reply (and APPENDUID's numbers).
+
+    State of the code modelled: with the repairs fixes/c03-copy-move-uidnext.patch
+    (COPY, UID COPY and the Junk/NonJunk move allocate from mailboxes.uid_next
+    and write it back, inside their transaction) and
+    fixes/c03-rename-inbox-uidnext.patch (RENAME INBOX: the new row inherits
+    INBOX's uid_next, in one transaction with the re-parenting).
 
     No proofs in this file. *)
 From Coq Require Import String Ascii List Bool ZArith.
@@ -104,11 +109,12 @@ Definition op_append (s : store) (folder : str) (flags : list str) : store * res
 Definition add_recent (fl : list str) : list str :=
   if existsb (fun f => contains f RECENT) fl then fl else fl ++ [RECENT].
 
-(** the loop of handleUIDCopy inside the transaction; [None] = an INSERT
-    failed (the caller rolls back) *)
+(** the loop of handleUIDCopy inside the transaction, followed by
+    "UPDATE mailboxes SET uid_next = nextUID" ([] case); [None] = an INSERT
+    failed (the caller rolls back).  [next] is the running nextUID. *)
 Fixpoint uidcopy_loop (s : store) (sel dest : Z) (uids : list Z) (next : Z) : option store :=
   match uids with
-  | [] => Some s
+  | [] => Some (set_next s dest next)
   | u :: r =>
     match find_link s sel u with
     | None => uidcopy_loop s sel dest r next              (* silently ignored *)
@@ -127,7 +133,8 @@ Definition op_uidcopy (s : store) (sel : Z) (set : list uspec) (dest : str) : st
     match find_name s dest with
     | None => (s, RNo)                                  (* NO [TRYCREATE] *)
     | Some d =>
-      match uidcopy_loop s sel (mb_id d) uids (max_uid s (mb_id d) + 1) with
+      (* nextUID := SELECT uid_next FROM mailboxes WHERE id = dest (inside the transaction) *)
+      match uidcopy_loop s sel (mb_id d) uids (mb_next d) with
       | Some s' => (s', ROk)
       | None => (s, RNo)                                (* rollback *)
       end
@@ -135,10 +142,10 @@ Definition op_uidcopy (s : store) (sel : Z) (set : list uspec) (dest : str) : st
   end.
 
 (** the loop of HandleCopy: "ORDER BY uid LIMIT 1 OFFSET seq-1" evaluated inside
-    the transaction; a missing row is an error *)
+    the transaction; a missing row is an error; [] case: the UPDATE of uid_next *)
 Fixpoint copy_loop (s : store) (sel dest : Z) (seqs : list Z) (next : Z) : option store :=
   match seqs with
-  | [] => Some s
+  | [] => Some (set_next s dest next)
   | n :: r =>
     match nth_error (links_sorted s sel) (Z.to_nat (n - 1)) with
     | None => None
@@ -157,7 +164,7 @@ Definition op_copy (s : store) (sel : Z) (set : list uspec) (dest : str) : store
     match find_name s dest with
     | None => (s, RNo)
     | Some d =>
-      match copy_loop s sel (mb_id d) seqs (max_uid s (mb_id d) + 1) with
+      match copy_loop s sel (mb_id d) seqs (mb_next d) with
       | Some s' => (s', ROk)
       | None => (s, RNo)
       end
@@ -182,9 +189,11 @@ Definition move_message (s : store) (msg src : Z) (destname : str) (flags : list
   | None => (s, false)
   | Some d =>
     if mb_id d =? src then (s, true) else
-    match insert_link s msg (mb_id d) (max_uid s (mb_id d) + 1) flags with
+    (* nextUID := uid_next of the destination; INSERT; UPDATE uid_next = nextUID+1; DELETE *)
+    match insert_link s msg (mb_id d) (mb_next d) flags with
     | None => (s, false)
-    | Some s1 => (delete_links s1 (fun l => (lk_msg l =? msg) && (lk_mbox l =? src)), true)
+    | Some s1 => (delete_links (set_next s1 (mb_id d) (mb_next d + 1))
+                               (fun l => (lk_msg l =? msg) && (lk_mbox l =? src)), true)
     end
   end.
 
@@ -282,7 +291,8 @@ Definition rename_inbox (s : store) (new : str) (t : Z) : store * result :=
       match create_mailbox_row s new t with
       | None => (s, RNo)
       | Some (s1, nid) =>
-        match reparent s1 (mb_id ib) nid with
+        (* transaction: the new row inherits INBOX's uid_next; links re-parented *)
+        match reparent (set_next s1 nid (mb_next ib)) (mb_id ib) nid with
         | Some s2 => (s2, ROk)
         | None => (s1, RNo)
         end
